@@ -1105,11 +1105,6 @@ def _():
     if (lo_y, hi_y) != (lo_x, hi_x):
         raise Untranslatable("refine_center: cutout bounds differ between the axes")
     out += f"def cut_lo (c r : Int) : Int := {lo_y}\ndef cut_hi (c r : Int) : Int := {hi_y}\n"
-    texts = [ast.unparse(s) for s in els if not isinstance(s, ast.Expr)]
-    want_mid = ["m = np.min(cutout)", "(ry, rx) = center_of_mass(cutout - m)"]
-    mid = [t.replace("ry, rx = ", "(ry, rx) = ") for t in texts[1:3]]
-    if mid != want_mid:
-        raise Untranslatable(f"refine_center: {texts[1:3]}")
     ry = [s for s in els if isinstance(s, ast.Assign) and ast.unparse(s.targets[0]) == "refined_y"][0]
     rx = [s for s in els if isinstance(s, ast.Assign) and ast.unparse(s.targets[0]) == "refined_x"][0]
     e3 = Env(vars={"y": ("c", INT), "x": ("c", INT), "ry": ("com", RAT), "rx": ("com", RAT), "r": ("r", INT)})
@@ -1117,8 +1112,29 @@ def _():
     if ty != tx:
         raise Untranslatable("refined_y / refined_x differ")
     out += f"def refined_coord (c : Int) (com : Rat) (r : Int) : Rat := {coerce(ty[0], ty[1], RAT)}\n"
-    com = find_def(BC, "center_of_mass")
-    out += _fp("com_body", " ; ".join(_stmt_texts(com)))
+    return out
+
+
+@fragment("Eval", "kernels")
+def _():
+    """the numba kernels as Lean functions over images (see kernels.py): loops become sums / running minima"""
+    import kernels as K
+    out = K.kernel_def(BC, "center_of_mass", "center_of_mass", params=[], arrays=["arr"],
+                       doc="`center_of_mass(arr)`: first moments over the total (float32 casts dropped)")
+    out += K.kernel_def(BC, "refine_center", "refine_center", params=[("r", "r", INT)], arrays=["corrmap"],
+                        tuples={"center": [("cy", INT), ("cx", INT)]}, kernels={"center_of_mass": "center_of_mass"},
+                        doc="`refine_center(center, r, corrmap)` with `center = (cy, cx)`").replace(
+        "(r : Int)", "(cy cx : Int) (r : Int)")
+    out += K.kernel_def(BC, "peak_elevation", "peak_elevation",
+                        params=[("sqrt", "sqrt", "SQRT"), ("height", "height", RAT), ("r_min", "r_min", RAT)],
+                        arrays=["corrmap"], tuples={"center": [("py", RAT), ("px", RAT)]}, infinite=["r_max"],
+                        ret_type="Option Rat",
+                        doc="`peak_elevation(center, corrmap, height, r_min)` with `center = (py, px)`, `r_max = inf`; "
+                            "`none` = `+inf`; the square root is a parameter").replace(
+        "(sqrt : Rat → Rat)", "(sqrt : Rat → Rat) (py px : Rat)")
+    fn = find_def(BC, "peak_elevation")
+    if ast.unparse(default_of(fn, "r_max")) != "np.inf":
+        raise Untranslatable("peak_elevation: default of r_max is not np.inf")
     return out
 
 
@@ -1155,11 +1171,6 @@ def _():
         raise Untranslatable(f"peak_elevation test {ast.unparse(test)}")
     c, _ = tr(test.values[0], env)
     out += f"def elev_in_range (dist r_min : Rat) : Bool := {c}\n"
-    out += _fp("elev_dist_expr", ast.unparse(find_assign(pe, "dist").value))
-    out += _fp("elev_update", ast.unparse(inner[0].body[0]))
-    ret = [s for s in stmts_of(pe) if isinstance(s, ast.Return)][0]
-    out += _fp("elev_return", ast.unparse(ret.value))
-    out += _fp("elev_init", ast.unparse(find_assign(pe, "result", nth=0).value))
     out += _fp("unravel_body", " ; ".join(_stmt_texts(find_def(BC, "unravel_index"))))
     return out
 
